@@ -31,7 +31,51 @@ import pyteal as pt
 sys.path.insert(0, os.path.dirname(os.path.abspath(__file__)))
 cases = json.load(open(sys.argv[2]))
 out = []
+KW = {"off": dict(annotate_teal=False),
+      "concise": dict(annotate_teal=True, annotate_teal_concise=True),
+      "full": dict(annotate_teal=True, annotate_teal_concise=False),
+      "headers": dict(annotate_teal=True, annotate_teal_headers=True, annotate_teal_concise=True)}
+
+
+def describe(teal, sm):
+    r3 = sm.r3_sourcemap
+    entries = [[l, col, m.source, m.source_line, m.source_column] for (l, col), m in r3.entries.items()]
+    js = r3.to_json()
+    back = pt.R3SourceMap.from_json(js)
+    entries_back = [[l, col, m.source, m.source_line, m.source_column] for (l, col), m in back.entries.items()]
+    return {"teal": teal, "entries": entries, "entries_back": entries_back,
+            "source_root": js.get("sourceRoot"), "sources": js.get("sources"), "mappings": js.get("mappings"),
+            "annotated": sm.annotated_teal}
+
+
 for c in cases:
+    if c.get("router"):
+        # a Router: two programs (approval "a", clear "c"), each with its own map
+        recs = {"a": {"id": "%sa" % c["id"]}, "c": {"id": "%sc" % c["id"]}}
+        try:
+            mod = importlib.import_module(c["module"])
+            for version in c["versions"]:
+                key = "v%d" % version
+                r0 = mod.build().compile(version=version)
+                recs["a"][key] = {"plain": r0.approval_teal}
+                recs["c"][key] = {"plain": r0.clear_teal}
+                if not GATE:
+                    continue
+                for ann in c["annotate"]:
+                    try:
+                        res = mod.build().compile(version=version, with_sourcemaps=True, **KW[ann])
+                    except Exception as e:
+                        for t in "ac":
+                            recs[t][key][ann] = {"error": "%s: %s" % (type(e).__name__, str(e)[:300])}
+                        continue
+                    recs["a"][key][ann] = describe(res.approval_teal, res.approval_sourcemap)
+                    recs["c"][key][ann] = describe(res.clear_teal, res.clear_sourcemap)
+        except Exception as e:
+            for t in "ac":
+                recs[t]["fatal"] = "%s: %s" % (type(e).__name__, str(e)[:300])
+        out.append(recs["a"])
+        out.append(recs["c"])
+        continue
     rec = {"id": c["id"]}
     try:
         mod = importlib.import_module(c["module"])
@@ -42,25 +86,13 @@ for c in cases:
             if not GATE:
                 continue
             for ann in c["annotate"]:
-                kw = {"off": dict(annotate_teal=False),
-                      "concise": dict(annotate_teal=True, annotate_teal_concise=True),
-                      "full": dict(annotate_teal=True, annotate_teal_concise=False),
-                      "headers": dict(annotate_teal=True, annotate_teal_headers=True, annotate_teal_concise=True)}[ann]
                 comp = pt.Compilation(mod.program(), pt.Mode.Application, version=version)
                 try:
-                    res = comp.compile(with_sourcemap=True, **kw)
+                    res = comp.compile(with_sourcemap=True, **KW[ann])
                 except Exception as e:
                     rec[key][ann] = {"error": "%s: %s" % (type(e).__name__, str(e)[:300])}
                     continue
-                r3 = res.sourcemap.r3_sourcemap
-                entries = [[l, col, m.source, m.source_line, m.source_column] for (l, col), m in r3.entries.items()]
-                js = r3.to_json()
-                back = pt.R3SourceMap.from_json(js)
-                entries_back = [[l, col, m.source, m.source_line, m.source_column] for (l, col), m in back.entries.items()]
-                rec[key][ann] = {"teal": res.teal, "entries": entries, "entries_back": entries_back,
-                                 "source_root": js.get("sourceRoot"), "sources": js.get("sources"),
-                                 "mappings": js.get("mappings"),
-                                 "annotated": res.sourcemap.annotated_teal}
+                rec[key][ann] = describe(res.teal, res.sourcemap)
     except Exception as e:
         rec["fatal"] = "%s: %s" % (type(e).__name__, str(e)[:300])
     out.append(rec)
@@ -282,6 +314,66 @@ def check_result(case, files, markers, on, off, viol, rep):
                         bad("annotated TEAL with comments removed differs from the plain TEAL")
 
 
+def router_configs():
+    """bare no-op action (absent / present) x number of methods (0..2) x clear-state action kind"""
+    return [{"bare": b, "methods": m, "clear": c} for b in (False, True) for m in (0, 1, 2)
+            for c in ("approve", "seq", "sub") if b or m]
+
+
+def router_module(mod, cfg, marker_base):
+    """-> (source text, {marker constant: (file name, 1-based line)}); one marker constant per action"""
+    L = ["import pyteal as pt", "", "", "def build():"]
+    markers = {}
+    nxt = [marker_base]
+
+    def mark():
+        nxt[0] += 1
+        return nxt[0]
+
+    def emit(line, m=None):
+        L.append(line)
+        if m is not None:
+            markers[m] = (mod + ".py", len(L))
+    if cfg["clear"] == "sub":
+        m = mark()
+        emit("    @pt.Subroutine(pt.TealType.none)")
+        emit("    def on_clear():")
+        emit("        return pt.Seq(")
+        emit("            pt.Pop(pt.Int(%d))," % m, m)
+        emit("            pt.Approve(),")
+        emit("        )")
+        clear = "on_clear"
+    elif cfg["clear"] == "seq":
+        m = mark()
+        emit("    clear = pt.Seq(")
+        emit("        pt.Pop(pt.Int(%d))," % m, m)
+        emit("        pt.Approve(),")
+        emit("    )")
+        clear = "clear"
+    else:
+        clear = "pt.Approve()"
+    if cfg["bare"]:
+        m = mark()
+        emit("    bare = pt.BareCallActions(no_op=pt.OnCompleteAction.create_only(pt.Seq(")
+        emit("        pt.Pop(pt.Int(%d))," % m, m)
+        emit("        pt.Approve(),")
+        emit("    )))")
+    else:
+        emit("    bare = None")
+    emit("    router = pt.Router(%r, bare, clear_state=%s)" % (mod, clear))
+    for k in range(cfg["methods"]):
+        m = mark()
+        emit("")
+        emit("    @router.method")
+        emit("    def meth%d(a: pt.abi.Uint64, *, output: pt.abi.Uint64) -> pt.Expr:" % k)
+        emit("        return pt.Seq(")
+        emit("            pt.Log(pt.Itob(pt.Int(%d)))," % m, m)
+        emit("            output.set(a.get() + pt.Int(%d))," % (k + 1))
+        emit("        )")
+    emit("    return router")
+    return "\n".join(L) + "\n", markers
+
+
 def program_cases(tier):
     cases = []
     g = gen_ctrl.Grammar()
@@ -336,6 +428,20 @@ def run(tier):
                     "recipe": prog}
             meta[idx] = (case, files, rr.markers)
             batches[idx % jobs].append({"id": idx, "module": mod_a, "versions": versions, "annotate": ann})
+        # routers: approval and clear-state program each come with their own map
+        for k, cfg_r in enumerate(router_configs()):
+            rid = 900000 + k
+            mod = "gen_router_%d" % k
+            text, markers = router_module(mod, cfg_r, 700000 + 100 * k)
+            with open(os.path.join(scratch, mod + ".py"), "w") as fh:
+                fh.write(text)
+            ann = ["off", "concise"] if tier == "quick" and k % 4 else ["off", "concise", "full", "headers"]
+            for tag in "ac":
+                case = {"id": "%d%s" % (rid, tag), "module": mod, "versions": [6, 8], "annotate": ann, "size": 3,
+                        "leading_blank": 0, "router": cfg_r, "program": "approval" if tag == "a" else "clear"}
+                meta[case["id"]] = (case, {mod + ".py": text}, markers)
+            batches[k % jobs].append({"id": rid, "module": mod, "versions": [6, 8], "annotate": ann, "router": True})
+        rep.bounds["routers"] = len(router_configs())
         procs = []
         for bi, batch in enumerate(batches):
             if not batch:
@@ -357,7 +463,7 @@ def run(tier):
         for idx, (case, files, markers) in meta.items():
             r = results.get(idx, {})
             if "on" not in r or "off" not in r:
-                raise common.MachineryError("C15: missing result for case %d" % idx)
+                raise common.MachineryError("C15: missing result for case %s" % idx)
             check_result(case, files, markers, r["on"], r["off"], viol, rep)
             rep.add("states")
             rep.add("transitions", case["size"])
@@ -382,6 +488,23 @@ def replay(case):
     scratch = tempfile.mkdtemp(prefix="vf15r_")
     try:
         open(os.path.join(scratch, "driver.py"), "w").write(DRIVER)
+        if "router" in c:
+            text, markers = router_module(c["module"], c["router"], 700000)
+            open(os.path.join(scratch, c["module"] + ".py"), "w").write(text)
+            cj = os.path.join(scratch, "cases.json")
+            json.dump([{"id": int(str(c["id"])[:-1]), "module": c["module"], "versions": c["versions"], "annotate": c["annotate"],
+                        "router": True}], open(cj, "w"))
+            res = {}
+            for gate in ("on", "off"):
+                outp = os.path.join(scratch, "out_%s.json" % gate)
+                subprocess.run(["/venv/bin/python", os.path.join(scratch, "driver.py"), gate, cj, outp], cwd=scratch, check=True,
+                               env=dict(os.environ, PYTHONHASHSEED="0", PYTHONDONTWRITEBYTECODE="1"))
+                res[gate] = [r for r in json.load(open(outp)) if r["id"] == c["id"]][0]
+            viol = []
+            check_result(c, {c["module"] + ".py": text}, markers, res["on"], res["off"], viol, common.Report(PID, "quick"))
+            for v in viol[:5]:
+                print("still violates:", v["title"][:300])
+            return bool(viol)
         rr = render.Renderer(c["recipe"], c["module"], c["module"].replace("gen_a", "gen_b"), leading_blank=c.get("leading_blank", 0))
         files = rr.render()
         for fn, text in files.items():
